@@ -2,6 +2,7 @@
   Property C05 — batched verification is as strict as verifying every query on its own.
 -/
 import PCV.Proofs.KZG10
+import PCV.Proofs.KZG10Batch
 import PCV.Props.Examples
 
 namespace PCV.C05
@@ -52,6 +53,49 @@ example : KZG.batchCheck (KZG.wfVK (3 : K) 5 2 1) [64, 64] [5, 5]
   decide
 example : KZG.batchCheck (KZG.wfVK (3 : K) 5 2 1) [64, 64] [5, 5]
     [evalPoly [1, 2, 3] 5, evalPoly [1, 2, 3] 5] [⟨81, some 30⟩, ⟨81, some 30⟩] [7, 9] = .ok true := by
+  decide
+
+/-- **Cancelling errors need the verifier's cooperation.** However many claims of a batch are false
+and however the errors were planted (to cancel across polynomials at one point, or across query
+points): if claim `j+1` is false then, the other randomizers being whatever they are, AT MOST ONE
+value of the randomizer `ρ_{j+1}` makes the batch verifier accept.  (The library draws `ρ` from
+`2^128` values, so a planted cancellation survives with probability ≤ `2^-128`; for the fixed
+`ρ₀ = 1` see `kzg10_first_false_rejected`.) -/
+theorem kzg10_batch_exceptional_randomizer (vk : KZG.VK F) (cs zs vs : List F)
+    (πs : List (KZG.Proof F)) (rs : List F) (j : Nat) (hj : j < rs.length)
+    (hd : (KZG.defects vk cs zs vs πs).getD (j + 1) 0 ≠ 0) (x y : F)
+    (hx : KZG.batchCheck vk cs zs vs πs (rs.set j x) = .ok true)
+    (hy : KZG.batchCheck vk cs zs vs πs (rs.set j y) = .ok true) : x = y := by
+  unfold KZG.batchCheck at hx hy
+  split at hx
+  · cases hx
+  · injection hx with hx
+    rw [if_neg (by assumption)] at hy
+    injection hy with hy
+    rw [decide_eq_true_iff, KZG.batchDefect_eq] at hx hy
+    exact KZG.wsum_zero_unique 1 rs _ j hj hd x y hx hy
+
+/-- the first claim has the fixed weight one: if it alone is false the batch is rejected for every
+randomizer list -/
+theorem kzg10_first_false_rejected (vk : KZG.VK F) (c z v : F) (π : KZG.Proof F)
+    (cs zs vs : List F) (πs : List (KZG.Proof F)) (rs : List F)
+    (hd : KZG.defect vk c z v π ≠ 0) (hz : ∀ e ∈ KZG.defects vk cs zs vs πs, e = 0) :
+    KZG.batchCheck vk (c :: cs) (z :: zs) (v :: vs) (π :: πs) rs ≠ .ok true := by
+  unfold KZG.batchCheck
+  split
+  · simp
+  · intro hc
+    injection hc with hc
+    rw [decide_eq_true_iff, KZG.batchDefect_eq] at hc
+    exact KZG.wsum_first_only rs _ _ hd hz hc
+
+/-- non-vacuity of the exceptional randomizer: errors `+1` and `−1` on two claims at one point are
+accepted by the randomizer `1` and by no other -/
+example : KZG.batchCheck (KZG.wfVK (3 : K) 5 2 1) [64, 64] [5, 5]
+    [evalPoly [1, 2, 3] 5 + 1, evalPoly [1, 2, 3] 5 - 1] [⟨81, some 30⟩, ⟨81, some 30⟩] [1] = .ok true := by
+  decide
+example : ∀ ρ : K, ρ ≠ 1 → KZG.batchCheck (KZG.wfVK (3 : K) 5 2 1) [64, 64] [5, 5]
+    [evalPoly [1, 2, 3] 5 + 1, evalPoly [1, 2, 3] 5 - 1] [⟨81, some 30⟩, ⟨81, some 30⟩] [ρ] = .ok false := by
   decide
 
 end PCV.C05
